@@ -297,6 +297,23 @@ func (r *AvPacket2RtmpRemuxer) FeedAvPacket(pkt base.AvPacket) {
 			copy(payload[2:], pkt.Payload)
 			r.emitRtmpAvMsg(true, payload, pkt.Timestamp)
 		} else if r.option.AudioFormat == base.AvPacketStreamAudioFormatAdtsAac {
+			// adts is self-framing: a packet may carry several frames back to back (e.g. a gb28181 pes with more
+			// than one adts frame under its single pts). feed them one by one, each 1024 samples after the one before
+			if frames, samplingFrequency := splitAdtsFrames(pkt.Payload); frames != nil {
+				for k, frame := range frames {
+					one := pkt
+					one.Payload = frame
+					if samplingFrequency > 0 {
+						// computed from k each time, so that the rounding error does not add up
+						offset := int64(k) * aacSamplesPerFrame * 1000 / int64(samplingFrequency)
+						one.Timestamp = pkt.Timestamp + offset
+						one.Pts = pkt.Pts + offset
+					}
+					r.FeedAvPacket(one)
+				}
+				return
+			}
+
 			if !r.hasAdts2Asc {
 				adts, err := aac.MakeAudioDataSeqHeaderWithAdtsHeader(pkt.Payload)
 				if err != nil {
@@ -350,6 +367,44 @@ func (r *AvPacket2RtmpRemuxer) FeedAvPacket(pkt base.AvPacket) {
 }
 
 // ---------------------------------------------------------------------------------------------------------------------
+
+const aacSamplesPerFrame = 1024
+
+// splitAdtsFrames returns the adts frames (headers included) of a buffer that holds more than one of them back to
+// back, with the sampling frequency of the first header (-1 if it names none), and nil for any other buffer: that
+// one is the single frame it always was.
+//
+// Behind the last complete frame, what does not begin with an adts header or is shorter than its header says (a frame
+// cut off at the end of the buffer) is dropped.
+func splitAdtsFrames(b []byte) (frames [][]byte, samplingFrequency int) {
+	samplingFrequency = -1
+	for len(b) >= aac.AdtsHeaderLength && b[0] == 0xff && b[1]&0xf6 == 0xf0 {
+		ctx, err := aac.NewAdtsHeaderContext(b)
+		if err != nil {
+			break
+		}
+		n := int(ctx.AdtsLength)
+		if n < aac.AdtsHeaderLength || n > len(b) {
+			break
+		}
+		if len(frames) == 0 {
+			if n == len(b) {
+				// the common case: one frame
+				return nil, samplingFrequency
+			}
+			samplingFrequency, _ = ctx.AscCtx.GetSamplingFrequency()
+		}
+		frames = append(frames, b[:n])
+		b = b[n:]
+	}
+	if len(frames) < 2 {
+		return nil, samplingFrequency
+	}
+	if len(b) != 0 {
+		Log.Warnf("drop %d bytes behind the last complete adts frame of the packet.", len(b))
+	}
+	return frames, samplingFrequency
+}
 
 func (r *AvPacket2RtmpRemuxer) emitRtmpAvMsg(isAudio bool, payload []byte, timestamp int64) {
 	if !r.hasEmittedMetadata {
